@@ -30,6 +30,8 @@ pub struct Features {
     pub escapes: u32,
     pub odd_spacing: u32,
     pub crlf: bool,
+    /// lines of text paragraphs whose words are not separated by exactly one ASCII blank
+    pub loose_text_lines: u32,
 }
 
 pub struct Printer<'a> {
@@ -683,8 +685,12 @@ impl<'a> Printer<'a> {
                                 self.out.push(' ');
                             }
                         }
-                        let l = self.words(l);
-                        self.out.push_str(&l);
+                        let before = (self.f.odd_spacing, self.f.comments, self.f.soft_wraps, self.f.escapes);
+                        let printed = self.words(l);
+                        if before != (self.f.odd_spacing, self.f.comments, self.f.soft_wraps, self.f.escapes) || printed.contains("  ") || printed.contains('\t') {
+                            self.f.loose_text_lines += 1;
+                        }
+                        self.out.push_str(&printed);
                     }
                     prev_multiline = true;
                 }
